@@ -143,3 +143,84 @@ M("C03", "head-length-not-zero", "response.py",
 M("C03", "second-feeder", "response.py",
   "        self._pool._put_conn(self._connection)\n        self._connection = None",
   "        self._pool.pool.put(self._connection, block=False)  # type: ignore[union-attr]\n        self._connection = None", rule="C03-R4")
+
+# --------------------------------------------------------------------------- C17
+M("C17", "len-outside-lock", "_collections.py",
+  "        with self.lock:\n            return len(self._container)", "        return len(self._container)", rule="C17-R1")
+M("C17", "dispose-inside-lock", "_collections.py",
+  "        with self.lock:\n            value = self._container.pop(key)\n\n        if self.dispose_func:\n            self.dispose_func(value)",
+  "        with self.lock:\n            value = self._container.pop(key)\n            if self.dispose_func:\n                self.dispose_func(value)", rule="C17-R2")
+M("C17", "dispose-on-getitem", "_collections.py",
+  "            item = self._container.pop(key)\n            self._container[key] = item\n            return item",
+  "            item = self._container.pop(key)\n            self._container[key] = item\n        if self.dispose_func and item is None:\n            self.dispose_func(item)\n        return item", rule="C17-R5")
+M("C17", "evict-most-recent", "_collections.py",
+  "evicted_item = self._container.popitem(last=False)", "evicted_item = self._container.popitem(last=True)", rule="C17-R4")
+M("C17", "replaced-value-not-disposed", "_collections.py",
+  "                evicted_item = key, self._container.pop(key)\n                self._container[key] = value",
+  "                self._container.pop(key)\n                self._container[key] = value", rule="C17-R3")
+M("C17", "bound-off-by-one", "_collections.py",
+  "                if len(self._container) > self._maxsize:", "                if len(self._container) > self._maxsize + 1:", rule="C17-R4")
+M("C17", "getitem-no-refresh", "_collections.py",
+  "            item = self._container.pop(key)\n            self._container[key] = item\n            return item",
+  "            item = self._container[key]\n            return item", rule="C17-R5")
+M("C17", "clear-disposes-only-first", "_collections.py",
+  "            for value in values:\n                self.dispose_func(value)",
+  "            for value in values:\n                self.dispose_func(value)\n                break", rule="C17-R3")
+M("C17", "pool-created-outside-lock", "poolmanager.py",
+  "        with self.pools.lock:\n            # If the scheme, host, or port doesn't match existing open\n            # connections, open a new ConnectionPool.\n            pool = self.pools.get(pool_key)\n            if pool:\n                return pool\n",
+  "        pool = self.pools.get(pool_key)\n        if pool:\n            return pool\n        with self.pools.lock:\n", rule="C17-R6")
+M("C17", "manager-closes-evicted-pools", "poolmanager.py",
+  "        self.pools = RecentlyUsedContainer(num_pools)", "        self.pools = RecentlyUsedContainer(num_pools, dispose_func=lambda p: p.close())", rule="C17-R7")
+M("C17", "capacity-ignores-num-pools", "poolmanager.py",
+  "        self.pools = RecentlyUsedContainer(num_pools)", "        self.pools = RecentlyUsedContainer()", rule="C17-R8")
+M("C17", "plain-lock", "_collections.py", "        self.lock = RLock()", "        self.lock = Lock()", rule="C17-R1")
+M("C17", "benign-move-to-end", "_collections.py",
+  "            item = self._container.pop(key)\n            self._container[key] = item\n            return item",
+  "            item = self._container.pop(key)\n            self._container[key] = item\n            result = item\n            return result", benign=True)
+
+# --------------------------------------------------------------------------- C16
+M("C16", "contains-without-lower", "_collections.py",
+  "            return key.lower() in self._container", "            return key in self._container", rule="C16-R1")
+M("C16", "getlist-without-lower", "_collections.py",
+  "            vals = self._container[key.lower()]\n        except KeyError:", "            vals = self._container[key]\n        except KeyError:", rule="C16-R1")
+M("C16", "copy-shares-lists", "_collections.py",
+  "            val = other.getlist(key)\n            self._container[key.lower()] = [key, *val]",
+  "            self._container[key.lower()] = other._container[key.lower()]", rule="C16-R2")
+M("C16", "getlist-returns-stored-list", "_collections.py",
+  "            return vals[1:]", "            return vals", rule="C16-R2")
+M("C16", "or-returns-self", "_collections.py",
+  "        result = self.copy()\n        result.extend(maybe_constructable)\n        return result",
+  "        result = self\n        result.extend(maybe_constructable)\n        return result", rule="C16-R3")
+M("C16", "ior-returns-copy", "_collections.py",
+  "        self.extend(maybe_constructable)\n        return self", "        self.extend(maybe_constructable)\n        return self.copy()", rule="C16-R3")
+M("C16", "extend-overwrites-mapping", "_collections.py",
+  "            for key, val in other.items():\n                self.add(key, val)", "            for key, val in other.items():\n                self[key] = val", rule="C16-R4")
+M("C16", "setitem-keeps-old-values", "_collections.py",
+  "        self._container[key.lower()] = [key, val]", "        self._container[key.lower()] = [key, val] + self.getlist(key)", rule="C16-R4")
+
+# --------------------------------------------------------------------------- C20
+M("C20", "escape-only-quote", "fields.py",
+  'value = value.translate({10: "%0A", 13: "%0D", 34: "%22"})', 'value = value.translate({34: "%22"})', rule="C20-R2")
+M("C20", "disposition-by-fstring", "fields.py",
+  "                self._render_parts(\n                    ((\"name\", self._name), (\"filename\", self._filename))\n                ),",
+  "                f'name=\"{self._name}\"',", rule="C20-R1")
+M("C20", "default-formatter-rfc2231", "fields.py",
+  "            self.header_formatter = format_multipart_header_param", "            self.header_formatter = format_header_param_rfc2231", rule="C20-R1")
+M("C20", "no-closing-delimiter", "filepost.py",
+  "    body.write(f\"--{boundary}--\\r\\n\".encode(\"latin-1\"))\n", "", rule="C20-R3")
+M("C20", "fresh-boundary-for-content-type", "filepost.py",
+  "    content_type = f\"multipart/form-data; boundary={boundary}\"", "    content_type = f\"multipart/form-data; boundary={choose_boundary()}\"", rule="C20-R4")
+M("C20", "crlf-after-data-only-for-str", "filepost.py",
+  "            body.write(data)\n\n        body.write(b\"\\r\\n\")", "            body.write(data)\n            continue\n\n        body.write(b\"\\r\\n\")", rule="C20-R3")
+M("C20", "bytes-through-text-writer", "filepost.py",
+  "        if isinstance(data, str):\n            writer(body).write(data)\n        else:\n            body.write(data)",
+  "        writer(body).write(data)", rule="C20-R3")
+M("C20", "header-block-without-blank-line", "fields.py",
+  "        lines.append(\"\\r\\n\")\n        return \"\\r\\n\".join(lines)", "        return \"\\r\\n\".join(lines) + \"\\r\\n\"", rule="C20-R3")
+M("C20", "escaped-value-not-quoted", "fields.py",
+  "    return f'{name}=\"{value}\"'\n\n\ndef format_header_param_html5", "    return f'{name}={value}'\n\n\ndef format_header_param_html5", rule="C20-R2")
+M("C20", "boundary-regenerated-per-field", "filepost.py",
+  "    for field in iter_field_objects(fields):\n        body.write(f\"--{boundary}\\r\\n\".encode(\"latin-1\"))",
+  "    for field in iter_field_objects(fields):\n        boundary = boundary or choose_boundary()\n        body.write(f\"--{boundary}\\r\\n\".encode(\"latin-1\"))", rule="C20-R4")
+M("C20", "content-type-from-constant", "_request_methods.py",
+  "            extra_kw[\"headers\"].setdefault(\"Content-Type\", content_type)", "            extra_kw[\"headers\"].setdefault(\"Content-Type\", \"multipart/form-data\")", rule="C20-R5")
